@@ -163,9 +163,10 @@ Theorem C04_permutation_invariance : forall k us ops ops' res,
                Permutation (d_rows res) (d_rows res').
 Proof. exact join_perm. Qed.
 
-(* ---------------------------------------------------------------- the engine's full join of three operands *)
-(* d_join_impl follows the emitted SQL (left-deep FULL JOINs, each ON comparing with the FIRST operand only): a key missing in
-   the first operand but present in the 2nd and 3rd yields two datapoints — the full-join statement above is false for it *)
+(* ---------------------------------------------------------------- why the left-deep formulation is not a full join *)
+(* d_join_impl is the formulation the engine emitted before its repair (fix 94e8b5c: left-deep FULL JOINs, each ON comparing
+   with the FIRST operand only): a key missing in the first operand but present in the 2nd and 3rd yields two datapoints —
+   the full-join statements above are false for it.  The correspondence runs the specification (d_join) only. *)
 Theorem C04_full_join_impl_refuted :
   exists ops, Forall wf_operand ops /\
     (exists res, d_join_impl JFull None ops = Ok res /\ uniq_keys (d_rows res) = false /\
